@@ -247,6 +247,22 @@ mutual
     | _, _ => false
 end
 
+/-- the text a resolved operand of `Fn::Equals` renders to (`_as_text`): booleans and numbers that were not written in
+    the template (read from a mapping, produced by a condition function) as the text CloudFormation compares; lists
+    element by element; text and objects as they are -/
+def asText : J → J
+  | .bool b => .str (if b then "true" else "false")
+  | .int i => .str (String.ofList (intToChars i))
+  | .num r => .str r
+  | .arr xs => .arr (asTextList xs)
+  | j => j
+where asTextList : List J → List J
+  | [] => []
+  | x :: xs => asText x :: asTextList xs
+
+/-- `Fn::Equals`: equality of the string renderings of the two resolved operands -/
+def eqText (a b : J) : Bool := pyEqJ (asText a) (asText b)
+
 /-- all results present -/
 def allSome : List (Option J) → Option (List J)
   | [] => some []
@@ -358,7 +374,7 @@ def applyFn (env : Env) (fn : String) (raw : J) (whole : Option J) (each : List 
     | [ra, rb] => do
       let a ← ra
       let b ← rb
-      pure (.bool (pyEqJ a b))
+      pure (.bool (eqText a b))
     | _ => none
   | some "resolve_get_attr" => pure (.str "GETATT")
   | some "resolve_get_azs" => pure (.str "GETAZS")
